@@ -411,7 +411,7 @@ def execute(plan):
     # a library that contributes only free functions, or only a published enum, takes part in no edge
     edges = set(e for e in gen_graph(rng, k, plan["graph"]) if not ({e[0], e[1]} & (funcs_only | enum_only | consts_only)))
     funcs_only = (funcs_only, enum_only, consts_only)
-    root = runner.fresh_dir("ms-%d-%016x" % (os.getpid(), fnv1a(json.dumps(plan, sort_keys=True))))
+    root = runner.fresh_dir("ms-%07d-%016x" % (os.getpid(), fnv1a(json.dumps(plan, sort_keys=True))))
     env = {"PATH": "/usr/bin:/bin", "LC_ALL": "C", "SOURCE_DATE_EPOCH": "1"}
     violations, harness_faults = [], []
     dbs = []
